@@ -64,6 +64,9 @@ def make_profiles(ctx, binpath):
           prof("bigr", pubs=random_pubs(rng, 3), no_disc=True)]
     if ctx.tier == "thorough":
         ps += [prof("bigr2", pubs=random_pubs(rng, 4)), prof("bigr5", ver=5, pubs=random_pubs(rng, 3), no_disc=True)]
+    # many small packets (30 x ~70 bytes): run against a broker with max_packet_size 512 (PACK_MAXPKT), where every MQTT
+    # packet fits but WebSocket messages of 1024..4096 bytes carry several of them
+    ps.append(prof("pack", pubs=[(1, 40 + (i * 7) % 23) for i in range(30)]))
     probe = prof("min1025", sub=False, pubs=[(1, 500)], ping=False, no_disc=True)
     _, g = describe(binpath, [probe], ctx.tmp("wsprobe"))
     ps.append(prof("min1025", sub=False, pubs=[(1, 500 + 1025 - g["min1025"]["n"])], ping=False, no_disc=True))
@@ -136,6 +139,17 @@ def plan(ctx, geo):
         jobs.append(Job(s, lite if q else full % (tla_intset(sizes), tla_pairs(phases(sizes, 4)), tla_intset(LENS))))
         jobs.append(Job(s, "{Walk}", simulate="num=%d" % (15 if q else 800), depth=120, tag="walk"))
     return jobs
+
+
+PACK_MAXPKT = 512
+
+
+def plan_pack(ctx, geo):
+    """segmentations of the stream `pack` for the broker with the small max_packet_size: one message, messages of 600..4096
+    bytes, single cuts, walks"""
+    q = ctx.tier == "quick"
+    return [Job("pack", "Singles \\cup UniformFams({600, 1024, 1025, 2048, 4096}, {}) \\cup {KCuts(1)}"),
+            Job("pack", "{Walk}", simulate="num=%d" % (20 if q else 400), depth=120, tag="walk")]
 
 
 def job_body(geo, job):
